@@ -125,6 +125,10 @@ func unmarshalText[T constraint.ParserInput](input T, r Rule) (Size, error) {
 }
 
 func unmarshalJSON[T constraint.ParserInput](input T, r Rule) (Size, error) {
+	// input must be exactly one valid JSON value, decoder itself reads only tokens it is asked for
+	if err := json.Unmarshal([]byte(input), new(json.RawMessage)); err != nil {
+		return 0, newParseError(defaultParserFuncName, input, err)
+	}
 	d := json.NewDecoder(bytes.NewReader([]byte(input)))
 	d.UseNumber()
 	t, err := d.Token()
